@@ -949,24 +949,40 @@ Proof.
   apply wp_ret. apply HQ; [apply Hlog, Hlog, HP | reflexivity | reflexivity].
 Qed.
 
-Lemma wp_infidelity : forall g pw tl ci (Q : tag * how -> lst -> Prop) l,
-  (pw = Correlations -> allowed E_value /\ allowed E_calc) -> LC l -> computed_post g Q ->
-  wp (infidelity fixed g pw tl ci) Q EA l.
+Lemma wp_integrate2 : forall g P (Q : tag * how -> lst -> Prop) l,
+  logstable g P -> P l -> (forall r l', P l' -> fst r = TF g -> snd r = Computed -> Q r l') ->
+  wp (integrate2 g (TF g) (TF g)) Q EA l.
 Proof.
-  intros g pw tl ci Q l Hal H HQ. unfold infidelity. destruct pw.
-  - apply wp_seq with (R := fun r l' => LCO g l' /\ fst r = TF g).
-    + destruct tl; [apply wp_get_ff | apply wp_get_cm]; try exact H; intros r l' H' Er _; split; assumption.
-    + intros [t h] l1 [H1 Et]. simpl in Et. subst t. cbn [fst].
-      apply (wp_integrate g (LCO g)); [apply logstable_LCO | exact H1 | exact HQ].
+  intros g P Q l [Hlog [_ HLC]] HP HQ. unfold integrate2.
+  apply wp_bind. apply wp_may_raise; [split; [apply HLC, Hlog, HP | apply Hinj] | ]. cbv beta.
+  rewrite derive_2. apply wp_bind, wp_lift_ret.
+  apply wp_bind. apply wp_may_raise; [split; [apply HLC, Hlog, Hlog, HP | apply Hinj] | ]. cbv beta.
+  apply wp_ret. apply HQ; [apply Hlog, Hlog, HP | reflexivity | reflexivity].
+Qed.
+
+Lemma wp_infidelity : forall g pw ci (Q : tag * how -> lst -> Prop) l,
+  (pw = Correlations -> allowed E_value /\ allowed E_calc) -> LC l -> computed_post g Q ->
+  wp (infidelity fixed g pw ci) Q EA l.
+Proof.
+  intros g pw ci Q l Hal H HQ. unfold infidelity. destruct pw.
+  - apply wp_bind. apply wp_get_ff; [exact H | ]. intros [t h] l1 H1 Et _. simpl in Et. subst t. cbv beta.
+    apply wp_bind. apply wp_get_cm; [eapply LCO_LC, H1 | ]. intros [t2 h2] l2 H2 Et2 _. simpl in Et2. subst t2. cbn [fst].
+    apply (wp_integrate2 g (LCO g)); [apply logstable_LCO | exact H2 | exact HQ].
   - destruct (Hal eq_refl) as [Hv Hc]. wnext. unfold omega_equal. apply wp_bind. wnext. apply wp_ret.
+    assert (Hrest : forall (r : tag * how) l' h, LCO g l' -> r = (TF g, h) ->
+              wp (c2 <- is_cached S_control_matrix_pc;;
+                  (if c2 then r2 <- get_pccm;; integrate2 g (fst r) (fst r2) else integrate g (fst r))) Q EA l').
+    { intros r l' h H' ->. cbn [fst]. wnext. destruct (sl l' S_control_matrix_pc) eqn:Ec.
+      - apply wp_bind. apply wp_get_pccm; [exact Hc | eapply LCO_LC, H' | ]. intros [t2 h2] l2 g0 H2 Ho2 Et2 _. cbv beta.
+        simpl in Et2. subst t2. rewrite (LCO_omega g l' H') in Ho2. injection Ho2 as <-. cbn [fst].
+        apply (wp_integrate2 g (LCO g)); [apply logstable_LCO | exact H2 | exact HQ].
+      - apply (wp_integrate g (LCO g)); [apply logstable_LCO | exact H' | exact HQ]. }
     destruct (LC_cases l g H) as [[Ho Hg] | [g' [Ho Hg]]]; rewrite Ho; cbv iota beta; cbn [andb negb].
-    + (* nothing cached: the pulse-correlation getter raises CalculationError or serves nothing stale *)
-      apply wp_bind. apply wp_get_pcff; [exact Hc | exact H | ]. intros r l' g0 _ Ho' _ _. congruence.
+    + apply wp_bind. apply wp_get_pcff; [exact Hc | exact H | ]. intros r l' g0 _ Ho' _ _. congruence.
     + destruct (grid_eqb g' g) eqn:Eg; cbn [andb negb].
       * apply grid_eqb_eq in Eg. subst g'.
         apply wp_bind. apply wp_get_pcff; [exact Hc | exact H | ]. intros [t h] l' g0 H' Ho' Et _. cbv beta.
-        rewrite Ho in Ho'. injection Ho' as <-. simpl in Et. subst t. cbn [fst].
-        apply (wp_integrate g (LCO g)); [apply logstable_LCO | exact H' | exact HQ].
+        rewrite Ho in Ho'. injection Ho' as <-. simpl in Et. subst t. apply (Hrest _ l' h H' eq_refl).
       * apply wp_raise. split; assumption.
 Qed.
 
@@ -1131,7 +1147,7 @@ Inductive grid_getter : op -> grid -> Prop :=
 | gg_ff g w o ci : grid_getter (GetFF g w o ci) g
 | gg_deriv g : grid_getter (GetDeriv g) g
 | gg_phases g : grid_getter (GetPhases g) g
-| gg_infid g tl ci : grid_getter (Infidelity g Total tl ci) g
+| gg_infid g ci : grid_getter (Infidelity g Total ci) g
 | gg_decay g ci : grid_getter (DecayAmplitudes g Total ci) g
 | gg_cumulant g s cio : grid_getter (Cumulant g Total s cio) g
 | gg_etm g s ci : grid_getter (ErrorTransferMatrix g s ci) g
@@ -1172,7 +1188,7 @@ Qed.
 Inductive pc_getter : op -> option grid -> Prop :=
 | pg_cm : pc_getter GetPCCM None
 | pg_ff w : pc_getter (GetPCFF w) None
-| pg_infid g tl ci : pc_getter (Infidelity g Correlations tl ci) (Some g)
+| pg_infid g ci : pc_getter (Infidelity g Correlations ci) (Some g)
 | pg_decay g ci : pc_getter (DecayAmplitudes g Correlations ci) (Some g)
 | pg_cumulant g cio : pc_getter (Cumulant g Correlations false cio) (Some g).
 
@@ -1332,10 +1348,11 @@ Lemma ni_get_pcff : forall w, ni (get_pcff w). Proof. intros; unfold get_pcff; n
 Lemma ni_get_deriv : forall mc g, ni (get_deriv mc g).
 Proof. intros; unfold get_deriv; pose proof ni_get_cm; pose proof ni_lazy_prop; pose proof ni_t_prop; ni_auto. Qed.
 Lemma ni_integrate : forall g f, ni (integrate g f). Proof. intros; unfold integrate; ni_auto. Qed.
-Lemma ni_infidelity : forall mc g pw tl ci, ni (infidelity mc g pw tl ci).
+Lemma ni_integrate2 : forall g f c, ni (integrate2 g f c). Proof. intros; unfold integrate2; ni_auto. Qed.
+Lemma ni_infidelity : forall mc g pw ci, ni (infidelity mc g pw ci).
 Proof.
-  intros; unfold infidelity; pose proof ni_get_ff; pose proof ni_get_cm; pose proof ni_integrate;
-  pose proof ni_omega_equal; pose proof ni_get_pcff; ni_auto.
+  intros; unfold infidelity; pose proof ni_get_ff; pose proof ni_get_cm; pose proof ni_integrate; pose proof ni_integrate2;
+  pose proof ni_omega_equal; pose proof ni_get_pcff; pose proof ni_get_pccm; ni_auto.
 Qed.
 Lemma ni_decay_amplitudes : forall mc g pw ci, ni (decay_amplitudes mc g pw ci).
 Proof.
